@@ -113,14 +113,15 @@ theorem start_failure_reports (hi ht w p e : Bool) (o er : List Chunk) (ins : Li
 
 /-- a dead worker ends the wait loop at the next poll even though the process is still running:
     from `poll` (no interrupt pending) three main-thread steps set `program_finished` and start the joins -/
-theorem dead_worker_leaves_wait_loop (s : S) (hd : s.anyDead = true) (hp : s.mainPc = .poll) (hi : s.intr = false) :
+theorem dead_worker_leaves_wait_loop (s : S) (hd : s.anyDead = true) (hp : s.mainPc = .poll) (hi : s.intr = false)
+    (hx : s.exited = false) (hpd : s.processDone = false) :
     (step (step (step s .main) .main) .main).fin = true ∧
     preJoin (step (step (step s .main) .main) .main).mainPc = false := by
-  have e1 : step s .main = { s with mainPc := .pollDead s.exited } := by simp [step, mainStep, hp, hi]
-  have e2 : step (step s .main) .main = { s with mainPc := .setFin } := by
+  have e1 : step s .main = { s with mainPc := .pollDead false } := by simp [step, mainStep, hp, hi, hx]
+  have e2 : step (step s .main) .main = { s with mainPc := .setFin, processDone := (s.processDone || false) } := by
     rw [e1]
-    have : ({ s with mainPc := .pollDead s.exited } : S).anyDead = true := hd
-    simp [step, mainStep, this]
+    simp [step, mainStep, leaveWait, hpd]
+    exact hd
   rw [e2]
   simp only [step, mainStep]
   unfold enterJoin afterJoins
